@@ -29,8 +29,6 @@ def run(id, entry, NB, L, CB=0, tiers=QT, mode='SEQ', cls='shape-complete', unwi
     d = dict(id=id, entry=entry, tiers=tiers, mode=mode, cls=cls, defs={'NB': NB, 'L': L, 'CB': CB},
              unwind=unwind if unwind is not None else (3 + L + 2),
              unwindset=['vhm_lock_bucket.0:2', 'vit_move_to_next_bucket.0:2', 'vit_move_to_next_bucket:%d' % (NB + 1)] + list(unwindset))
-    import os
-    if os.environ.get('VI_FLAGS'): d['flags'] = os.environ['VI_FLAGS'].split()
     d.update(kw)
     return d
 Q = ['quick']; TH = ['thorough']
@@ -89,14 +87,14 @@ UNIT = dict(
          calls={'iterator': 'VIT_default'}, must_fire={'call:iterator': 1}),
     dict(id='lock_bucket', file=I, sig=P + r'lock_bucket\(hash_t hash, guarded_block& block, bucket_state& state\)',
          c_sig='static struct bkt* vhm_lock_bucket(struct vhm* self, uint64_t hash, struct blk** block_p, bstate_t* state_p)',
-         subst=BACKOFF + [(r'\bblock\b', '(*block_p)', 'block_ref'), (r'\bstate = st;', '(*state_p) = st;', 'state_ref'),
+         subst=BACKOFF + [(r'\bblock\b', '(*block_p)', 'block_ref'), (r'(?<![\w.>])state = ', '(*state_p) = ', 'state_ref'),
                           (r'\bbucket_state st\b', 'bstate_t st', 'bs_type')],
          post_subst=[(r'return bucket;', 'return &bucket;', 'ref_return')],
          members=['data_block'], methods=METH,
          must_fire={'A_LOAD': 2, 'A_CAS': 1, 'subst:state_ref': 1, 'subst:ref_return': 1, 'subst:backoff_call': 1, 'reference': 1}),
     dict(id='lock_bucket_cut', file=I, sig=P + r'lock_bucket\(hash_t hash, guarded_block& block, bucket_state& state\)',
          c_sig='static struct bkt* vhm_lock_bucket_cut(struct vhm* self, uint64_t hash, struct blk** block_p, bstate_t* state_p)',
-         subst=BACKOFF + [(r'\bblock\b', '(*block_p)', 'block_ref'), (r'\bstate = st;', '(*state_p) = st;', 'state_ref'),
+         subst=BACKOFF + [(r'\bblock\b', '(*block_p)', 'block_ref'), (r'(?<![\w.>])state = ', '(*state_p) = ', 'state_ref'),
                           (r'\bbucket_state st\b', 'bstate_t st', 'bs_type')],
          post_subst=[(r'return bucket;', 'return &bucket;', 'ref_return')],
          members=['data_block'], methods=METH, cut_loops={0: 'LOCKB'},
@@ -148,7 +146,7 @@ UNIT = dict(
   runs=[
     # NB = buckets in the block, L = extension items available to the bucket under test, CB = index of the bucket under test
     run('lock_bucket', 'h_lock_bucket', 2, 0, CB=1), run('lock_bucket_b0', 'h_lock_bucket', 2, 0, CB=0, tiers=TH), run('lock_bucket_NB4', 'h_lock_bucket', 4, 0, CB=2, tiers=TH),
-    run('lock_bucket_int', 'h_lock_bucket_int', 2, 0, mode='INT', cls='unbounded', note='retry loop cut by invariant LOCKB; the environment rewrites every bucket the caller does not hold'),
+    run('lock_bucket_int', 'h_lock_bucket_int', 2, 0, mode='INT', note='retry loop cut by invariant LOCKB (unbounded retries); the environment rewrites every bucket the caller does not hold; NB = 2 buckets'),
     run('find', 'h_find', 2, 2, CB=1, tiers=Q, solver=CAD), run('find_b0', 'h_find', 2, 2, CB=0, tiers=TH, solver=CAD), run('find_L3', 'h_find', 2, 3, CB=1, tiers=TH, solver=CAD),
     run('find_NB1', 'h_find', 1, 2, tiers=TH, solver=CAD),
     run('begin', 'h_begin', 4, 0), run('begin_NB1', 'h_begin', 1, 0, tiers=TH),
@@ -181,6 +179,13 @@ UNIT = dict(
     'vhm.it.sync.lock_orders': dict(deciding=True, text='sync precondition: every locking CAS is acquire-or-stronger, every unlocking / version-publishing state store is release-or-stronger'),
   },
   loop_obligation={'LOCKB': 'vhm.it.exclusive', 'MNB': 'vhm.it.exclusive'},
-  replays={},
-  canaries=[],
+  replays={'vhm.it.find.position': dict(src='replay_find.cpp'),
+           'vhm.it.erase.exact': dict(src='replay_erase.cpp'), 'vhm.it.erase.version_bumped': dict(src='replay_erase.cpp'),
+           'vhm.it.move.transfers': dict(src='replay_move_assign.cpp')},
+  canaries=['lock_bucket.done', 'lock_bucket_int.done', 'find.array', 'find.ext_head', 'find.ext_inner', 'find.absent_empty', 'find.absent',
+            'begin.empty_map', 'begin.bucket0', 'begin.later_bucket', 'next.array', 'next.array_to_chain', 'next.chain', 'next.to_end',
+            'next.to_next_bucket', 'deref.ext', 'deref.array', 'erase.case1_stays', 'erase.case1_moves_on', 'erase.case2', 'erase.case3_stays',
+            'erase.case3_moves_on', 'reset.positioned', 'reset.end', 'mnb.last_bucket', 'mnb.skipped_to_end', 'mnb.adjacent', 'mnb.skipped_empty',
+            'mnb_int.end', 'mnb_int.positioned', 'move_ctor.positioned', 'move_ctor.end', 'move_assign.both_positioned',
+            'move_assign.end_over_positioned', 'move_assign.positioned_over_end', 'move_assign.end_over_end', 'traverse.three_or_more'],
 )
